@@ -4,6 +4,8 @@ import PexpectModel.Drv.All
 def dispatch (line : String) : String :=
   match (line.trimAscii.toString.splitOn " ").filter (· != "") with
   | "EX" :: toks => Drv.ExD.handle toks
+  | "SP" :: toks => Drv.LaunchD.handleSplit toks
+  | "WH" :: toks => Drv.LaunchD.handleWhich toks
   | _ => "bad-op"
 
 partial def loop (h : IO.FS.Stream) (out : IO.FS.Stream) : IO Unit := do
